@@ -33,7 +33,7 @@ def prove_equal(ctx, tag, A, B, pairs, share_b=None, sig=None, what=None, detail
     pairs = list(pairs)
     for a, b in pairs:
         if a not in fa or b not in fb:
-            ctx.side(tag + ":present", False, (sig or tag) + ":missing-node", f"node missing for comparison: {a!r} / {b!r}", detail)
+            ctx.side(tag + ":present", False, (sig if isinstance(sig, str) else tag) + ":missing-node", f"node missing for comparison: {a!r} / {b!r}", detail)
             return False
     if not pairs:
         return True
